@@ -27,7 +27,12 @@ O  text     (1) every line has the same width; (2) the rule lines give the colum
             (that many fractional digits, within half a unit of the last place), Position = units [+ {per-unit
             cost}] likewise, Cost = number currency, date, "label", Inventory = the multiset of its lots, each
             read like a Position (one per line with expand); (8) in decimal and Amount columns the decimal
-            points of all non-NULL cells are at the same offset.
+            points of all non-NULL cells are at the same offset; (9) fixed offsets inside amount-like cells
+            ("columns start at fixed offsets", InventoryRenderer / PositionRenderer docstrings): in a Position column
+            the decimal point and the currency symbol of the units, and of the cost where there is one, are at the
+            same offset in every row; in an Inventory column rendered WITHOUT expand in the tabular layout the same
+            holds for the n-th lot of every commodity over all rows holding one (so a commodity's sub-column does
+            not move when an earlier commodity is absent, or held without cost).
    CSV      first record = the column names; then one record per (expanded) line of every row, each with one
             field per column; each field, stripped, equals the stripped text cell of the rendering with the same
             expand / nullvalue (for set and inventory cells: the same tokens, separators being listsep in text
@@ -65,7 +70,10 @@ ASSUMPTIONS = [
     'decimals: numeric equality on read-back (trailing zeros are not compared); cells in scientific notation are exempt from the alignment clause only; '
     'NaN / Infinity are outside',
     'dates read back as year-month-day integers (a year below 1000 printed without leading zeros is accepted)',
-    'alignment is required of decimal and Amount columns only (not of Position / Inventory / Cost columns)',
+    'decimal-point alignment across ALL rows is required of decimal and Amount columns; Position columns and the n-th lot of each commodity of '
+    'non-expanded Inventory columns must keep decimal point and currency symbol at one offset; Inventory columns needing more than 5 slots '
+    '(sum over commodities of the most lots one row holds) are exempt because the renderer documents a plain list there ("Too many distinct '
+    'commodities to present in tabular format"); expanded Inventory columns and Cost columns are not covered',
     'CSV is compared with the text rendering, as the property states; set / inventory fields are compared token-wise because the item separator differs',
     'display contexts with render_commas, and column names containing blanks at the ends, are outside',
 ]
